@@ -406,7 +406,7 @@ def check_C05(tier):
         "samples": samples,
         "outcomes": dict(outcomes),
         "states": stats["distinct"], "transitions": stats["generated"],
-        "operations": ["Glob::new", "depth/text/has_root/is_exhaustive", "captures/has_semantic_literals/is_empty/Display", "is_match/matched/get/to_owned/into_owned on 10 paths", "clone/into_owned", "partition/partition_or_empty/partition_or_tree", "any (text, compiled, nested)", "not() programs / walk component programs", "FromStr/TryFrom", "escape + rebuild", "BuildError::locations + slicing the expression by each span"],
+        "operations": ["Glob::new", "depth/text/has_root/is_exhaustive", "captures/has_semantic_literals/is_empty/Display", "is_match/matched/get/to_owned/into_owned on 10 paths", "clone/into_owned", "partition/partition_or_empty/partition_or_tree", "any (text, compiled, nested)", "any of no patterns (queried, matched, nested in further combinators)", "not() programs / walk component programs", "FromStr/TryFrom", "escape + rebuild", "BuildError::locations + slicing the expression by each span"],
         "disagreements": n, "known_findings_hit": sorted(v.findings),
     }, time.time() - t0, len(v.violations), ["outcome classes are validated by TLC (ObsCheck!Total); totality itself is explored, not proved", "a worker that dies or exceeds 60 s is an abort/timeout of that input"])
     return rc
@@ -920,11 +920,73 @@ def filters_check(prop, tier):
 
 
 def library_scenarios(prop, tier, first_sid, rnd):
-    return []
+    """C13: path walks with single negations, among them ones whose exhaustive and non-exhaustive alternatives both
+    match a directory (it must be discarded as a tree: nothing beneath it reaches the layers after the not)"""
+    if prop != "C13":
+        return []
+    out = []
+    for tname in ("plain", "deep"):
+        nodes, index = W.tree(W.TREES[tname])
+        for neg in NEGATIONS:
+            if len(neg) != 1 or not neg[0]:
+                continue
+            out.append({"sid": first_sid + len(out), "nodes": nodes, "follow": False, "min": -1, "max": -1, "rooted": False,
+                        "walk_from": index["root"], "base": "abs", "tree": tname, "origin": "library", "_neg": tuple(neg), "_base_text": "root",
+                        "layers": [{"kind": "not", "patterns": [C.cps(neg[0])], "mode": "text" if len(out) % 2 else "compiled"}],
+                        "desc": "path walk over tree %s .not(%r)" % (tname, neg[0])})
+    return out
+
+
+def exhaustive_tables(scenarios, tag):
+    """the exhaustive program that not() compiles from each single negation of the scenarios (hook), as an automaton
+    over an alphabet that holds every character of the trees; returns accepts(pattern, relative path) -> bool | None"""
+    singles = sorted({h["_neg"][0] for h in scenarios if h.get("_neg") and len(h["_neg"]) == 1 and not h.get("_two") and h["_neg"][0]})
+    alphabet = sorted({c for h in scenarios for nd in h["nodes"] for c in nd["name"]} | {47, 10})
+    ncases = [{"id": i + 1, "kind": "glob", "fam": "walkneg", "e": C.cps(p),
+               "sigma": sorted(set(alphabet) | (set(C.cps(p)) - set(C.cps("{}<>:,*?[]()!-\\$0123456789"))))} for i, p in enumerate(singles)]
+    exh_of = {}
+    if ncases:
+        for o in L.read_ndjson(L.observe(ncases, "dfa,neg", tag)):
+            if o["outcome"] == "ok" and "neg" in o:
+                exh_of[C.text(o["e"])] = o
+
+    def accepts(p, rel):
+        o = exh_of.get(p)
+        if o is None or any(ord(c) not in o["sigma"] for c in rel):
+            return None
+        t = o["neg"]["exh"]
+        if not t["ok"]:
+            return False if t.get("why") == "absent" else None
+        q = 0
+        for c in rel:
+            q = t["delta"][q][o["sigma"].index(ord(c))] - 1
+        return t["acc"][q]
+    return accepts
 
 
 def library_oracles(prop, scenarios, results, yielded, v):
-    return {}
+    """C13: an entry that the exhaustive program of a negation matches is discarded as a tree, and only such an entry"""
+    lib = [h for h in scenarios if h.get("origin") == "library" and h.get("_neg")]
+    if not lib:
+        return {}
+    accepts = exhaustive_tables(lib, "negwalk13")
+    n = 0
+    for h in lib:
+        slot = results[h["sid"]]["slot_of"][0]
+        for y in yielded.get(h["sid"], []):
+            if y["err"] != "none" or not y["verdicts"]:
+                continue
+            rel = W.rel_to(y["text"], h["_base_text"])
+            verdict = y["verdicts"][slot - 1]
+            ex = accepts(h["_neg"][0], rel)
+            n += 1
+            if ex is True and verdict != "tree":
+                v.disagree({"t": "DISAGREE", "what": "exhaustive_match_not_discarded_as_tree", "sid": h["sid"], "scenario": h},
+                           "%s: entry %r matches an exhaustive alternative of the negation but not() answers %s: what lies beneath it reaches the layers downstream" % (h["desc"], y["text"], verdict))
+            if ex is False and verdict == "tree":
+                v.disagree({"t": "DISAGREE", "what": "tree_discard_without_exhaustive_match", "sid": h["sid"], "scenario": h},
+                           "%s: entry %r is discarded as a tree although no exhaustive alternative matches it" % (h["desc"], y["text"]))
+    return {"not_verdicts_compared_with_the_exhaustive_program": n}
 
 
 CHECKS["C13"] = lambda tier: filters_check("C13", tier)
@@ -1111,6 +1173,10 @@ def negation_sound(tier, v, extra_patterns=()):
 
 
 NEGATIONS = [["**/b/**"], ["b/**"], ["**/*.txt"], ["a/b"], ["**/{b}"], ["**/.h/**", "**/y.txt"], [""], ["{a/**,**/y.txt}"], ["**/<a:1,2>"],
+             # a directory that matches an exhaustive and a non-exhaustive alternative at once (it is discarded as a tree)
+             ["{**/b/**,**/b}"], ["{a/**,a}"], ["**/b/**", "**/b"], ["{**/c,**/c/**,**/g}"],
+             # several top-level alternations at once (nested in one another, as members of one any)
+             ["{{**/c/**,*.txt},{**/g,b/**},a/x.txt}"], ["{**/*.txt,**/d}", "{**/c/**,b}"], ["{{a/x.txt,**/h},{b,**/f},{**/y.txt,**/g}}"],
              ["a/**"], ["**"], ["*"], ["**/c/**"], ["**/{f,g}"], ["<*/>"], ["a/b/**", "b"], ["**/b"], ["?/**"], ["nonexistent"], ["**/a/*"]]
 
 
@@ -1168,6 +1234,9 @@ def check_C03(tier):
             if h.get("glob") is not None:
                 pairs.append(((C.text(h["glob"]),), rel))
     is_match = W.matches(pairs)
+    # the exhaustive program that not() compiles from each single negation (hook), over an alphabet that holds
+    # every character of the trees: an entry that it matches must be discarded as a tree, and only such an entry
+    exhaustive_accepts = exhaustive_tables(scenarios, "negwalk-" + tier)
     n_oracle = 0
     for h in scenarios:
         r = results[h["sid"]]
@@ -1200,6 +1269,14 @@ def check_C03(tier):
                 rel = W.rel_to(y["text"], h["_base_text"])
                 verdict = y["verdicts"][slot - 1]
                 m = is_match[(h["_neg"], rel)]
+                if len(h["_neg"]) == 1 and not sig["prefixed_glob"]:
+                    ex = exhaustive_accepts(h["_neg"][0], rel)
+                    if ex is True and verdict != "tree":
+                        v.disagree({"t": "DISAGREE", "what": "exhaustive_match_not_discarded_as_tree", "sid": h["sid"], "sig": sig, "scenario": h},
+                                   "%s: entry %r matches an exhaustive alternative of the negation but not() answers %s" % (h["desc"], y["text"], verdict))
+                    if ex is False and verdict == "tree":
+                        v.disagree({"t": "DISAGREE", "what": "tree_discard_without_exhaustive_match", "sid": h["sid"], "sig": sig, "scenario": h},
+                                   "%s: entry %r is discarded as a tree although no exhaustive alternative matches it" % (h["desc"], y["text"]))
                 if (verdict != "keep") != m:
                     residue = y["ins"][slot - 1] != "F"
                     if verdict == "tree" and residue and sig["prefixed_glob"]:
@@ -1391,6 +1468,13 @@ def check_C15(tier):
                     if g is not None:
                         h["glob"] = C.cps(g)
                     scenarios.append(h)
+                    # the same bounds through the other public constructors of a depth behaviour
+                    if not follow and g in (None, "a/**"):
+                        ctors = (["from_depths", "from_depths_swapped"] if mx >= 0 else ["from_min"]) + (["from_max"] if mx >= 0 and mn <= 0 else [])
+                        for ctor in ctors:
+                            if mx >= 0 and mn > mx:
+                                continue
+                            scenarios.append(dict(h, sid=len(scenarios) + 1, ctor=ctor, desc=h["desc"] + " (built with %s)" % ctor))
     # walks that start at something other than the top directory: a file, a sub-directory, and (links read as
     # targets) links to a file / a directory / an ancestor and a dangling link
     nodes, index = W.tree(W.TREES["links"])
@@ -1515,8 +1599,14 @@ def check_C20(tier):
     scenarios = []
     count = 120 if tier == "quick" else 1500
     faulty = lambda s: (not all(s["readable"])) or any(k == "link" for k in s["kind"])
-    for sc in sample_model_scenarios(tier, rnd, count, W.mc_consts(4, 1, links=True, faults=True), "n4l1lf", faulty):
+    for k, sc in enumerate(sample_model_scenarios(tier, rnd, count, W.mc_consts(4, 1, links=True, faults=True), "n4l1lf", faulty)):
         scenarios.append(W.from_model(sc, len(scenarios) + 1))
+        # every third scenario also with depth bounds: a fault is reported whatever the minimum depth
+        if k % 3 == 0:
+            mn, mx = rnd.choice([(1, 100), (2, 100), (3, 100), (1, 2), (2, 2), (0, 1)])
+            h = W.from_model(dict(sc, min=mn, max=mx), len(scenarios) + 1)
+            h["variant"] = "depth %d..%s" % (mn, mx if mx < 100 else "inf")
+            scenarios.append(h)
     specs = {
         "faults": W.TREES["faults"],
         "first": {"a": ("locked", {"x": None}), "b": {"f": None}, "c": None},
